@@ -21,6 +21,7 @@ ProjOK(m) ==
   /\ Chk("model_objects", SeqToSet(Ev.proj.objs) = models'[m].objs)
   /\ Chk("inputs_as_wired",
          \A o \in models'[m].objs : SeqToSet(Ev.proj.inputs[ToString(o)]) = models'[m].inputs[o])
+  /\ Chk("every_node_and_input_of_the_model_belongs_to_it", Ev.proj.members_ok /\ Ev.proj.closed)
   /\ Chk("outputs_are_exact_inverse_of_inputs", Ev.proj.outputs_inverse_ok)
   /\ Chk("update_order_is_topological", Ev.proj.topo_ok)
 
